@@ -171,7 +171,7 @@ def validate(ck, events, hists, name):
         k = pos + rej[0][0]
         s, e = max((se for se in slices if se[0] <= k), key=lambda se: se[0])
         sig, desc = describe(events, k)
-        exp = expected_for(events, s, k)
+        exp = expected_for(events, s, k) if events[k]["e"] not in ("begin", "end") else None
         if exp is not None:
             res = exp["res"]
             if res["t"] == "ok" and len(res["v"]) > 40:
